@@ -174,6 +174,7 @@ class Prop(object):
                     continue
                 u.append(('base', {'scn': scn, 'signer': signer, 'hash': 'SHA256', 'src': 'pgpy'}))
         for signer in B2_SIGNERS:
+            u.append(('verifier_state', {'signer': signer}))
             u.append(('keyswap', {'signer': signer}))
             u.append(('carried', {'signer': signer}))
             u.append(('confusion', {'signer': signer}))
@@ -475,6 +476,62 @@ class Prop(object):
                                 'signature by subkey %s relabelled as issued by subkey %s' % (skid, other_id))
         r.dim('signer', signer)
         r.samples.append({'keyswap': signer})
+        return r
+
+    def c_verifier_state(self, case):
+        """The same mutations when the verifying key is in a non-default state: revoked primary, revoked issuing subkey, a designated
+        revoker and a direct-key signature on it, a second identity, protected private form.  (A revocation is advisory in PGPy: a correct
+        signature by a revoked key still verifies, so the bases stay meaningful.)"""
+        import pgpy
+        from pgpy.constants import HashAlgorithm, KeyFlags, SymmetricKeyAlgorithm
+        from mc import recips as R
+        r = Res()
+        signer = case['signer']
+        R.set_s2k_count(0)
+        for state in ('revoked', 'subkey-revoked', 'decorated', 'protected'):
+            host, hraw = K.pgpy_cert(signer, uid=S.SIGNER_UID, subkeys=[('ed25519c', {KeyFlags.Sign})])
+            sub = list(host.subkeys.values())[0]
+            doc = b'state dependent verification'
+            by_primary = host.sign(doc, hash=HashAlgorithm.SHA256, created=K.dt(S.SIG_T))
+            by_subkey = sub.sign(doc, hash=HashAlgorithm.SHA256, created=K.dt(S.SIG_T))
+            if state == 'revoked':
+                host |= host.revoke(host, created=K.dt(S.SIG_T + 10))
+            elif state == 'subkey-revoked':
+                sub |= host.revoke(sub, created=K.dt(S.SIG_T + 10))
+            elif state == 'decorated':
+                other = S.target_cert()[0]
+                host |= host.revoker(other.pubkey, created=K.dt(S.SIG_T + 10))
+                host |= host.certify(host, created=K.dt(S.SIG_T + 11))
+                host.add_uid(pgpy.PGPUID.new('Second Identity <second@example.org>'), created=K.dt(S.SIG_T + 12), usage={KeyFlags.Sign, KeyFlags.Certify})
+            elif state == 'protected':
+                host.protect('pw', SymmetricKeyAlgorithm.AES128, HashAlgorithm.SHA256)
+            verifier = host.pubkey if state != 'protected' else host
+            for who, sig in (('primary', by_primary), ('subkey', by_subkey)):
+                pk = bytes(sig.__bytearray__())
+                label0 = 'document signature by the %s of %s, verifying key state %s' % (who, signer, state)
+                v0 = self._verdict(verifier, doc, pk)
+                r.states += 1
+                r.transitions += 1
+                r.outcomes['base:' + v0] += 1
+                if v0 != 'truthy':
+                    r.viol('base-rejected', {'scn': 'state-' + state}, case, label0 + ': untouched signature does not verify: ' + v0)
+                    continue
+                alg = hraw['alg'] if who == 'primary' else 'eddsa'
+                tags = {'scn_kind': 'doc', 'mut': 'verifier-state', 'state': state}
+                n = 0
+                for name, cls, mpk in packet_mutants(pk, 'doc', alg):
+                    if name.startswith('hashed-area-bit') and n % 5:
+                        n += 1
+                        continue
+                    n += 1
+                    self._judge(r, cls, self._verdict(verifier, doc, mpk), dict(tags, grp=name.split('-bit')[0].split('(')[0].rstrip('0123456789-')), dict(case), '%s, packet mutation %s' % (label0, name))
+                for i in range(len(doc)):
+                    m = bytearray(doc)
+                    m[i] ^= 1 << (i % 8)
+                    self._judge(r, 'different', self._verdict(verifier, bytes(m), pk), dict(tags, grp='doc-bit'), dict(case), '%s, document bit %d flipped' % (label0, i))
+                self._judge(r, 'different', self._verdict(verifier, b'', pk), dict(tags, grp='doc-empty'), dict(case), label0 + ', empty document')
+        r.dim('signer', signer)
+        r.samples.append({'verifier_states': ['revoked', 'subkey-revoked', 'decorated', 'protected']})
         return r
 
     def c_carried(self, case):
